@@ -110,6 +110,17 @@ func (t *Type) hasFixed() bool {
 	return false
 }
 
+// hasEmpty reports whether t or any of its sub types is the type of an
+// untyped empty composite literal.
+func (t *Type) hasEmpty() bool {
+	for ; t != nil; t = t.Sub {
+		if t == EMPTY_ARRAY || t == EMPTY_MAP {
+			return true
+		}
+	}
+	return false
+}
+
 // String returns a string representation of the Type.
 func (t *Type) String() string {
 	if t == nil {
